@@ -197,8 +197,13 @@ def closest_contract(col, g, dim):
 
     def chk():
         grid = UniformGrid(origin, axes, shape, weight="Rectangle")
-        for _ in range(20):
+        for t in range(30):
             frac = g.uniform(0, 1, dim) * (shape - 1)
+            if t >= 20:
+                # "all query points": also points outside the box, by less and by more than half a step, on one or on all axes
+                out = g.uniform(0.2, 3.0, dim) * g.choice([-1.0, 1.0], dim)
+                mask = np.ones(dim, bool) if t % 2 else (np.arange(dim) == int(g.integers(0, dim)))
+                frac = np.where(mask, np.where(out > 0, shape - 1 + out, out), frac)
             p = origin + frac @ axes
             idx = int(grid.closest_point(p, "closest"))
             d = np.linalg.norm(grid.points - p, axis=1)
@@ -322,7 +327,7 @@ def interpolation_contract(col, g, k):
 def run(tier, seed, *rest):
     col = Collector("real Tensor1DGrids/UniformGrid on random shapes 2..6 per axis (2D and 3D), skewed/negative axes, all five weight schemes: "
                     "index bijection, node layout, weight products, weight-sum bound, molecule boxes (incl. asymmetric charge), nearest node by "
-                    "brute force, cube write/read round trip in both unit conventions, tri-cubic polynomial reproduction with derivatives, "
+                    "brute force (query points inside and outside the box), cube write/read round trip in both unit conventions, tri-cubic polynomial reproduction with derivatives, "
                     "log variant on exp(cubic) with derivatives of order <= 3 in each single variable, linear variant; distinct = (contract, dimension, scheme/variant)")
     g = rng(seed, "C13")
     reps = 3 if tier == "quick" else 20
@@ -357,6 +362,9 @@ def replay(req):
             if what in (None, "uniform"):
                 for scheme in ([spec["scheme"]] if spec.get("scheme") else ["Rectangle", "Trapezoid", "Alternative"]):
                     uniform_contract(col, g, dim, scheme)
+    if what == "closest":
+        for k in range(6):
+            closest_contract(col, g, spec.get("dim") if spec.get("dim") in (2, 3) else 2 + k % 2)
     if what == "interpolate-log":
         for k in range(3):
             interpolation_contract(col, g, k)
